@@ -14,6 +14,8 @@ pub mod vals;
 #[cfg(kani)]
 mod c10k;
 #[cfg(kani)]
+mod c05k;
+#[cfg(kani)]
 mod c01;
 #[cfg(kani)]
 mod c18;
